@@ -5,7 +5,7 @@ import glob, json, os, re, subprocess, sys, shutil
 src, res = sys.argv[1], sys.argv[2]
 only = sys.argv[3:]
 ENV = dict(os.environ, GOFLAGS="-mod=mod", GOPROXY="off")
-WT = "/tmp/seed/vwt"
+WT = os.environ.get("VWT", "/tmp/seed/vwt")
 def sh(cmd, cwd=WT, timeout=400):
     try:
         p = subprocess.run(cmd, cwd=cwd, env=ENV, shell=True, capture_output=True, text=True, timeout=timeout)
